@@ -239,6 +239,23 @@ fn derive_not_shape(def: &NotDef, symbol_table: &mut BTreeMap<Rc<str>, Shape>) -
     )
 }
 
+/// The shape of a tuple after a copy set some of its fields. The new fields
+/// go after the tuple's own, so a name can be there twice: the last one is the
+/// field's shape after the copy (see `tuple_field_shape`).
+fn copied_tuple_shape(
+    base: &PositionedItem<TupleShape>,
+    def: &CopyDef,
+    symbol_table: &mut BTreeMap<Rc<str>, Shape>,
+) -> PositionedItem<TupleShape> {
+    let mut fields = base.clone();
+    fields.val.extend(
+        def.fields
+            .iter()
+            .map(|(tok, _constraint, expr)| (tok.into(), expr.derive_shape(symbol_table))),
+    );
+    fields
+}
+
 fn derive_copy_shape(def: &CopyDef, symbol_table: &mut BTreeMap<Rc<str>, Shape>) -> Shape {
     let base_shape = def.selector.derive_shape(symbol_table);
     match &base_shape {
@@ -254,63 +271,46 @@ fn derive_copy_shape(def: &CopyDef, symbol_table: &mut BTreeMap<Rc<str>, Shape>)
             def.pos.clone(),
             format!("Not a Copyable type {}", base_shape.type_name()),
         ),
-        // This is an interesting one. Do we assume tuple or module here?
-        Shape::Hole(pi) => Shape::Narrowed(NarrowedShape::new_with_pos(
-            vec![
-                Shape::Tuple(PositionedItem::new(vec![], pi.pos.clone())),
-                Shape::Module(ModuleShape {
-                    items: vec![],
-                    ret: Box::new(Shape::Narrowed(NarrowedShape::new_with_pos(
-                        vec![],
-                        pi.pos.clone(),
-                    ))),
-                }),
-                Shape::Import(ImportShape::Unresolved(pi.clone())),
-            ],
-            pi.pos.clone(),
-        )),
-        Shape::Narrowed(NarrowedShape {
+        // We can not tell a tuple from a module here. Copying a module
+        // yields whatever its out expression is.
+        Shape::Hole(_)
+        | Shape::Narrowed(NarrowedShape {
             pos: _,
             types: NarrowingShape::Any,
-        }) => Shape::Narrowed(NarrowedShape::new_with_pos(
-            vec![
-                Shape::Tuple(PositionedItem {
-                    pos: def.pos.clone(),
-                    val: Vec::new(),
-                }),
-                Shape::Module(ModuleShape {
-                    items: vec![],
-                    ret: Box::new(Shape::Narrowed(NarrowedShape {
-                        pos: def.pos.clone(),
-                        types: NarrowingShape::Any,
-                    })),
-                }),
-            ],
-            def.pos.clone(),
-        )),
+        }) => Shape::Narrowed(NarrowedShape {
+            pos: def.pos.clone(),
+            types: NarrowingShape::Any,
+        }),
         Shape::Narrowed(NarrowedShape {
             pos: _,
             types: NarrowingShape::Narrowed(potentials),
         }) => {
-            // 1. Do the possible shapes include tuple, module, or import?
-            let filtered = potentials
-                .iter()
-                .filter_map(|v| match v {
-                    Shape::Tuple(_) | Shape::Module(_) | Shape::Import(_) | Shape::Hole(_) => {
-                        Some(v.clone())
+            // What the copy yields for each candidate that can be copied:
+            // a tuple with the fields set, a module's result.
+            let mut results = Vec::new();
+            for candidate in potentials.iter() {
+                match candidate {
+                    Shape::Tuple(t_def) => results.push(
+                        Shape::Tuple(copied_tuple_shape(t_def, def, symbol_table))
+                            .with_pos(def.pos.clone()),
+                    ),
+                    Shape::Module(mdef) => results.push(mdef.ret.as_ref().clone()),
+                    Shape::Import(_) | Shape::Hole(_) | Shape::Narrowed(_) => {
+                        return Shape::Narrowed(NarrowedShape {
+                            pos: def.pos.clone(),
+                            types: NarrowingShape::Any,
+                        })
                     }
-                    _ => None,
-                })
-                .collect::<Vec<Shape>>();
-            if !filtered.is_empty() {
-                //  1.1 Then return those and strip the others.
-                Shape::Narrowed(NarrowedShape::new_with_pos(filtered, def.pos.clone()))
-            } else {
-                // 2. Else return a type error
-                Shape::TypeErr(
+                    _ => {}
+                }
+            }
+            match results.len() {
+                0 => Shape::TypeErr(
                     def.pos.clone(),
                     format!("Not a Copyable type {}", base_shape.type_name()),
-                )
+                ),
+                1 => results.pop().unwrap(),
+                _ => Shape::Narrowed(NarrowedShape::new_with_pos(results, def.pos.clone())),
             }
         }
         // These have understandable ways to resolve the type.
@@ -337,13 +337,7 @@ fn derive_copy_shape(def: &CopyDef, symbol_table: &mut BTreeMap<Rc<str>, Shape>)
             mdef.ret.as_ref().clone()
         }
         Shape::Tuple(t_def) => {
-            let mut base_fields = t_def.clone();
-            base_fields.val.extend(
-                def.fields
-                    .iter()
-                    .map(|(tok, _constraint, expr)| (tok.into(), expr.derive_shape(symbol_table))),
-            );
-            Shape::Tuple(base_fields).with_pos(def.pos.clone())
+            Shape::Tuple(copied_tuple_shape(t_def, def, symbol_table)).with_pos(def.pos.clone())
         }
         Shape::Import(ImportShape::Unresolved(_)) => Shape::Narrowed(NarrowedShape::new_with_pos(
             vec![Shape::Tuple(PositionedItem::new(vec![], def.pos.clone()))],
